@@ -4,7 +4,7 @@
    with the observed post-state; the executable statements of the properties selected by
    [t_specs] are evaluated on the implementation's observations. *)
 From Coq Require Import NArith List Bool.
-From DudV Require Import Model.Render.
+From DudV Require Import Model.Render Model.Init.
 From DudV Require Import Base.Bytes Base.Blake3 Base.Json Base.GoPath Model.Fs Model.Cache Model.Stage Model.Index Model.System.
 Import ListNotations.
 Local Open Scope N_scope.
@@ -615,10 +615,22 @@ Definition diff (c : tcase) : list N :=
   (if list_eqb beqb (w_index w') (w_index (t_post c)) then [] else [5]) ++
   (if output_eqb out (t_out c) then [] else [6]).
 
-(* C15: `dud init` inside an initialised project: index, configuration, cache and everything else
-   are untouched (whether it refuses or not) *)
-Record icase := mkIC { i_id : N; i_pre : world; i_ok : bool; i_post : world; i_cfg_changed : bool }.
+(* C15: `dud init`.  [i_pre]/[i_post]: the (outer) project before and after - index, stage files,
+   workspace, cache - which init never touches; [i_cfg_changed]: any file of the outer .dud changed;
+   [i_mpre]/[i_mpost]: the .dud of the directory init was RUN in (the project's own for a re-run from
+   the root; a sub-directory's - absent before - when run from a sub-directory).
+   correspondence: Model/Init.init_cmd on the observed metadata gives the observed metadata and
+   exit status (the two configuration texts are the model's parameters: taken from what was written);
+   statements: the outer project is untouched; a freshly written configuration sets nothing. *)
+Record icase := mkIC { i_id : N; i_pre : world; i_ok : bool; i_post : world; i_cfg_changed : bool;
+                       i_mpre : Init.meta; i_mpost : Init.meta }.
 Definition verdict_init (c : icase) : N :=
-  if world_eqb (i_pre c) (i_post c) && negb (i_cfg_changed c) then 0 else 2.
+  let cfg := match Init.m_config (i_mpost c) with Some b => b | None => [] end in
+  let rcl := match Init.m_rclone (i_mpost c) with Some b => b | None => [] end in
+  let '(m', ok) := Init.init_cmd cfg rcl (i_mpre c) in
+  let corr := Init.meta_eqb m' (i_mpost c) && Bool.eqb ok (i_ok c) in
+  let spec := world_eqb (i_pre c) (i_post c) && negb (i_cfg_changed c) &&
+              (if i_ok c then Init.comment_only cfg && Init.comment_only rcl else true) in
+  (if corr then 0 else 1) + (if spec then 0 else 2).
 Definition run_init (cs : list icase) : list (N * N) :=
   filter (fun p => negb (snd p =? 0)) (map (fun c => (i_id c, verdict_init c)) cs).
